@@ -80,6 +80,8 @@ def _str_ne(m, args, raw):
 @model("str::starts_with")
 def _starts_with(m, args, raw):
     s, p = deref(args[0]), deref(args[1])
+    if isinstance(p, str):          # a char pattern
+        p = RStr(p)
     if isinstance(p, RStr) and p.text is not None:
         if s.sym is None:
             return s.text.startswith(p.text)
@@ -439,3 +441,9 @@ def _dyn_any(m, args, raw):
 def _derived_ne(m, args, raw):
     r = m.call(raw[:-2] + "eq", args)
     return (not r) if isinstance(r, bool) else z3.Not(r)
+
+
+@model("slice::to_vec", "^<Vec<.*> as Clone>::clone$")
+def _to_vec(m, args, raw):
+    items, a, b = as_list(args[0])
+    return VecObj(list(items[a:b]))
